@@ -1,7 +1,7 @@
 """C11 - WKD-IBE keys from any delegation history are well-formed (partial claim: merge-cursor discipline)."""
 from .. import cursor
 
-EXPL = ('Partial claim. Correct distribution of keys and the scheme\'s pairing equations are cryptographic value-level facts '
+EXPL = ('(R-SCHEME) every path segment (entry -> loop head, one loop iteration, loop exit -> return) of the scheme routines is interpreted in the discrete-log domain - group elements are formal Z_r-linear combinations of base symbols with polynomial coefficients, pairings expand bilinearly, cursors and indices are symbolic - and its effect table is compared with the table the construction prescribes for the segment\'s category (attribute present / hidden / slot free in the parent / flags); with the exit conditions this is an inductive argument valid for every number of slots and every attribute list: which generator, which exponent, which randomness reaches which component is decided for all values at once. Partial claim. Correct distribution of keys and the scheme\'s pairing equations are cryptographic value-level facts '
         'and are NOT decided. Decided (R-CURSOR): the bookkeeping that walks the slot index i, the attribute cursor k, the '
         'parent free-slot cursor x and the output cursor j in lock-step, in keygen, qualifykey, nondelegable_keygen and '
         'nondelegable_qualifykey. All acyclic paths of each loop body are enumerated and abstracted by the outcomes of the '
